@@ -11,6 +11,11 @@ unsafe impl GlobalAlloc for Counting {
         MAX_REQ.fetch_max(l.size(), Ordering::Relaxed);
         System.alloc(l)
     }
+    // without this the trait's default (alloc + memset) touches every page of a huge vec![0; n]
+    unsafe fn alloc_zeroed(&self, l: Layout) -> *mut u8 {
+        MAX_REQ.fetch_max(l.size(), Ordering::Relaxed);
+        System.alloc_zeroed(l)
+    }
     unsafe fn dealloc(&self, p: *mut u8, l: Layout) { System.dealloc(p, l) }
     unsafe fn realloc(&self, p: *mut u8, l: Layout, n: usize) -> *mut u8 {
         MAX_REQ.fetch_max(n, Ordering::Relaxed);
